@@ -416,8 +416,8 @@ fn run_hist(seq: &[HOp], jitter: u64, loopback: bool, trace: bool) -> CaseResult
     let ips = "10.0.0.5,10.0.1.5";
     let tys = [n("_t._tcp.local"), n("_u._udp.local")];
     let insts = [n("one._t._tcp.local"), n("two._u._udp.local")];
-    // (time, service, Some(port) = register / None = unregister that was answered OK)
-    let mut evs: Vec<(u64, usize, Option<u16>)> = vec![];
+    // (time, service, Some(port) = register / None = unregister that was answered OK, log index before the call)
+    let mut evs: Vec<(u64, usize, Option<u16>, usize)> = vec![];
     let mut if1_from: Option<u64> = None;
     let mut solicited: Vec<(usize, usize)> = vec![];
     let mut next_q = base + 60;
@@ -452,17 +452,19 @@ fn run_hist(seq: &[HOp], jitter: u64, loopback: bool, trace: bool) -> CaseResult
                     HOp::Reg1NewPort => (0, "_t._tcp.local.", "one", 8080),
                     _ => (1, "_u._udp.local.", "two", 81),
                 };
+                let lix = w.log.len();
                 w.ds[0].h.register(svc(ty, inst, "host.local.", ips, port, &[("k", "v")])).unwrap();
                 w.poke(0);
-                evs.push((w.now, sv, Some(port)));
+                evs.push((w.now, sv, Some(port), lix));
                 registered[sv] = Some(port);
             }
             HOp::Unreg1 | HOp::Unreg2 => {
                 let sv = if *op == HOp::Unreg1 { 0 } else { 1 };
+                let lix = w.log.len();
                 let _ = w.ds[0].h.unregister(if sv == 0 { "one._t._tcp.local." } else { "two._u._udp.local." }).unwrap();
                 w.poke(0);
                 if registered[sv].take().is_some() {
-                    evs.push((w.now, sv, None));
+                    evs.push((w.now, sv, None, lix));
                 }
             }
             HOp::Idle300 => idle(&mut w, 300, &if1_from, &mut solicited),
@@ -482,12 +484,13 @@ fn run_hist(seq: &[HOp], jitter: u64, loopback: bool, trace: bool) -> CaseResult
         res.viols.push(viol("C07|H|daemon-fault", f));
         return res;
     }
-    let all: Vec<(u64, Out, bool)> = w
+    // (time, packet, solicited?, log index)
+    let all: Vec<(u64, Out, bool, usize)> = w
         .log
         .iter()
         .enumerate()
         .filter_map(|(ix, e)| match &e.kind {
-            Kind::Out(o) => Some((e.t, o.clone(), solicited.iter().any(|(a, b)| ix >= *a && ix < *b))),
+            Kind::Out(o) => Some((e.t, o.clone(), solicited.iter().any(|(a, b)| ix >= *a && ix < *b), ix)),
             _ => None,
         })
         .collect();
@@ -496,20 +499,22 @@ fn run_hist(seq: &[HOp], jitter: u64, loopback: bool, trace: bool) -> CaseResult
         ifs.push((IF1, t));
     }
     for sv in 0..2 {
-        let my: Vec<&(u64, usize, Option<u16>)> = evs.iter().filter(|e| e.1 == sv).collect();
+        let my: Vec<&(u64, usize, Option<u16>, usize)> = evs.iter().filter(|e| e.1 == sv).collect();
         for (k, ev) in my.iter().enumerate() {
             let Some(port) = ev.2 else { continue };
             let t_k = ev.0;
             let e_k = my.get(k + 1).map_or(end, |n| n.0);
+            // the registration's window in log positions (several calls may share a millisecond)
+            let lix_k = ev.3;
+            let lix_end = my.get(k + 1).map_or(usize::MAX, |n| n.3);
             for &(i, if_from) in &ifs {
-                // sub-windows: the interface may appear inside the registration window
                 // an interface that appeared is known to the daemon at its next periodic check (<= 1 s)
                 let known_by = if if_from > 0 { if_from + 1000 } else { 0 };
                 let (start, bound) = (t_k.max(if_from), t_k.max(known_by) + 1000);
-                if start >= e_k {
-                    continue;
+                if start > e_k {
+                    continue; // the interface appeared after this registration was over
                 }
-                let on_if: Vec<&(u64, Out, bool)> = all.iter().filter(|(_, o, _)| o.if_index == Some(i)).collect();
+                let on_if: Vec<&(u64, Out, bool, usize)> = all.iter().filter(|(_, o, _, _)| o.if_index == Some(i)).collect();
                 let names = |m: &Msg| m.all_records().any(|r| r.ttl > 0 && (name_eq_ci(&r.name, &insts[sv]) || matches!(&r.rd, RD::Ptr(t) if name_eq_ci(t, &insts[sv]))));
                 let is_ann = |o: &Out, want_port: Option<u16>| -> bool {
                     o.is_multicast()
@@ -519,27 +524,29 @@ fn run_hist(seq: &[HOp], jitter: u64, loopback: bool, trace: bool) -> CaseResult
                                 && m.answers.iter().any(|r| r.rtype == T_SRV && name_eq_ci(&r.name, &insts[sv]) && matches!(&r.rd, RD::Srv { port: p, .. } if want_port.map_or(true, |w| w == *p)))
                         })
                 };
-                let anns: BTreeSet<u64> = on_if.iter().filter(|(t, o, sol)| !*sol && *t >= start && *t <= e_k && is_ann(o, Some(port))).map(|(t, _, _)| *t).collect();
+                let in_window = |t: u64, ix: usize| ix >= lix_k && ix < lix_end && t >= if_from;
+                // (time, log index) of this registration's unsolicited announcements
+                let anns: Vec<(u64, usize)> = on_if.iter().filter(|(t, o, sol, ix)| !*sol && in_window(*t, *ix) && is_ann(o, Some(port))).map(|(t, _, _, ix)| (*t, *ix)).collect();
+                let ann_times: BTreeSet<u64> = anns.iter().map(|a| a.0).collect();
                 let tag = format!("svc{sv} if {i} registration at +{} (port {port}, window ends +{})", t_k - base, e_k - base);
-                let a1 = anns.iter().next().copied();
+                let a1 = anns.first().copied();
                 if e_k > bound {
                     match a1 {
-                        Some(a) if a <= bound => res.count("announced_within_bound", 1),
+                        Some((a, _)) if a <= bound => res.count("announced_within_bound", 1),
                         _ => {
-                            res.viols.push(viol("C07|H|registration-not-announced-within-the-bound", format!("{tag}: announcements with these values at {:?}, bound +{}", anns.iter().map(|t| t - base).collect::<Vec<_>>(), bound - base)));
+                            res.viols.push(viol("C07|H|registration-not-announced-within-the-bound", format!("{tag}: announcements with these values at {:?}, bound +{}", ann_times.iter().map(|t| t - base).collect::<Vec<_>>(), bound - base)));
                             continue;
                         }
                     }
                 }
-                let Some(a1) = a1 else { continue };
-                // did the daemon hold the instance name on i at `start`?
-                let last_unreg = my[..k].iter().rev().find(|e| e.2.is_none()).map_or(0, |e| e.0);
-                let held = on_if.iter().any(|(t, o, _)| *t < start && *t >= last_unreg && *t >= if_from && is_ann(o, None) && o.msg.as_ref().is_ok_and(|m| m.answers.iter().all(|r| r.ttl > 0)))
-                    && !my[..k].iter().any(|e| e.2.is_none() && e.0 == start && false);
+                let Some((a1, a1_ix)) = a1 else { continue };
+                // did the daemon hold the instance name on i when the call was made?
+                let last_unreg_lix = my[..k].iter().rev().find(|e| e.2.is_none()).map_or(0, |e| e.3);
+                let held = on_if.iter().any(|(t, o, _, ix)| *ix < lix_k && *ix >= last_unreg_lix && *t >= if_from && is_ann(o, None) && o.msg.as_ref().is_ok_and(|m| m.answers.iter().all(|r| r.ttl > 0)));
                 if !held {
                     res.count("registrations_of_a_name_not_held", 1);
-                    for (t, o, _) in &on_if {
-                        if *t >= start && *t < a1 {
+                    for (t, o, _, ix) in &on_if {
+                        if in_window(*t, *ix) && *ix < a1_ix {
                             if let Ok(m) = &o.msg {
                                 if m.is_response() && names(m) {
                                     res.viols.push(viol("C07|H|answered-or-announced-before-probing-finished", format!("{tag}: at +{} before its announcement at +{}: {}", t - base, a1 - base, m.summary())));
@@ -549,8 +556,8 @@ fn run_hist(seq: &[HOp], jitter: u64, loopback: bool, trace: bool) -> CaseResult
                     }
                     let probes: BTreeSet<u64> = on_if
                         .iter()
-                        .filter(|(t, o, _)| *t >= last_unreg.max(if_from) && o.msg.as_ref().is_ok_and(|m| !m.is_response() && asks(m, &insts[sv], T_ANY) && m.authorities.iter().any(|r| r.rtype == T_SRV && name_eq_ci(&r.name, &insts[sv]))))
-                        .map(|(t, _, _)| *t)
+                        .filter(|(t, o, _, ix)| *ix >= last_unreg_lix && *ix < a1_ix && *t >= if_from && o.msg.as_ref().is_ok_and(|m| !m.is_response() && asks(m, &insts[sv], T_ANY) && m.authorities.iter().any(|r| r.rtype == T_SRV && name_eq_ci(&r.name, &insts[sv]))))
+                        .map(|(t, _, _, _)| *t)
                         .collect();
                     if !probes.iter().any(|&t| probes.contains(&(t + 250)) && probes.contains(&(t + 500)) && t + 750 <= a1) {
                         res.viols.push(viol("C07|H|instance-name-not-probed-3x250ms-before-announcement", format!("{tag}: probes at {:?}, announcement +{}", probes.iter().map(|t| t - base).collect::<Vec<_>>(), a1 - base)));
@@ -560,8 +567,8 @@ fn run_hist(seq: &[HOp], jitter: u64, loopback: bool, trace: bool) -> CaseResult
                 } else {
                     res.count("registrations_of_a_name_already_held", 1);
                 }
-                if e_k > a1 + 1000 && !anns.contains(&(a1 + 1000)) {
-                    res.viols.push(viol("C07|H|no-second-announcement-after-1s", format!("{tag}: announcements at {:?}", anns.iter().map(|t| t - base).collect::<Vec<_>>())));
+                if e_k > a1 + 1000 && !ann_times.contains(&(a1 + 1000)) {
+                    res.viols.push(viol("C07|H|no-second-announcement-after-1s", format!("{tag}: announcements at {:?}", ann_times.iter().map(|t| t - base).collect::<Vec<_>>())));
                 }
             }
         }
